@@ -366,6 +366,16 @@ Lemma kid_alts_cons tg x xs :
   kid_alts tg (ICons x xs) = (item_id x, union_of tg x, build_alt x) :: kid_alts tg xs.
 Proof. reflexivity. Qed.
 
+(* union_of (Model/Layout.v: a redefined item heads the union named after itself, any other redefiner belongs to the union
+   it names) case by case *)
+Lemma union_of_unf tg x :
+  union_of tg x =
+  match item_redef x with
+  | Some t => if existsb (N.eqb (item_id x)) tg then Some (item_id x) else Some t
+  | None => if existsb (N.eqb (item_id x)) tg then Some (item_id x) else None
+  end.
+Proof. unfold union_of. destruct (item_redef x), (existsb (N.eqb (item_id x)) tg); reflexivity. Qed.
+
 Lemma alts_of_app u a b : alts_of u (a ++ b) =
   (fix cat (p q : jalts) : jalts := match p with ANil => q | ACons s r => ACons s (cat r q) end)
     (alts_of u a) (alts_of u b).
@@ -391,17 +401,22 @@ Qed.
 (* the redefiners of u in xs, when xs holds no other member of union u *)
 Lemma alts_of_redefiners tg u xs :
   (forall y, in_kids y xs -> item_redef y = None -> item_id y <> u) ->
+  (forall y, in_kids y xs -> item_redef y <> None -> existsb (N.eqb (item_id y)) tg = false) ->
   alts_of u (kid_alts tg xs) = alts_red u xs.
 Proof.
-  induction xs as [|y ys IH]; intros H; [reflexivity|].
-  rewrite kid_alts_cons. cbn [alts_of alts_red]. unfold union_of.
+  induction xs as [|y ys IH]; intros H Hnt; [reflexivity|].
+  rewrite kid_alts_cons. cbn [alts_of alts_red]. rewrite union_of_unf.
   assert (Hys : forall z, in_kids z ys -> item_redef z = None -> item_id z <> u)
     by (intros z Hz; apply H; right; exact Hz).
+  assert (Hnts : forall z, in_kids z ys -> item_redef z <> None -> existsb (N.eqb (item_id z)) tg = false)
+    by (intros z Hz; apply Hnt; right; exact Hz).
+  specialize (IH Hys Hnts).
   destruct (item_redef y) as [u'|] eqn:Er.
-  - destruct (N.eqb u u'); rewrite IH by exact Hys; reflexivity.
+  - rewrite (Hnt y) by (try (left; reflexivity); rewrite Er; discriminate).
+    destruct (N.eqb u u'); rewrite IH; reflexivity.
   - assert (Hy : item_id y <> u) by (apply H; [left; reflexivity|exact Er]).
-    destruct (existsb (N.eqb (item_id y)) tg); [|apply IH; exact Hys].
-    destruct (N.eqb u (item_id y)) eqn:E; [apply N.eqb_eq in E; subst; contradiction|apply IH; exact Hys].
+    destruct (existsb (N.eqb (item_id y)) tg); [|exact IH].
+    destruct (N.eqb u (item_id y)) eqn:E; [apply N.eqb_eq in E; subst; contradiction|exact IH].
 Qed.
 
 Lemma kid_ids_app a b : kid_ids (app_items a b) = kid_ids a ++ kid_ids b.
@@ -484,6 +499,43 @@ Proof.
   - destruct (item_redef x); [right|]; apply IH; assumption.
 Qed.
 
+(* among well-formed siblings no redefiner is itself redefined *)
+Lemma sib_ok_targets : forall ks bases, sib_ok bases ks = true -> forall u, In u (redef_targets ks) ->
+  In u bases \/ exists z, in_kids z ks /\ item_redef z = None /\ item_id z = u.
+Proof.
+  induction ks as [|x xs IH]; intros bases H u Hu; [destruct Hu|].
+  cbn [sib_ok redef_targets] in *. destruct (item_redef x) as [t|] eqn:Er.
+  - apply andb_true_iff in H. destruct H as [Ht Hxs]. destruct Hu as [ <- |Hu].
+    + left. apply existsb_eqb_In. exact Ht.
+    + destruct (IH bases Hxs u Hu) as [Hb|(z & Hz & Ez & Ei)]; [left; exact Hb|].
+      right. exists z. split; [right; exact Hz|split; assumption].
+  - destruct (IH _ H u Hu) as [[ <- |Hb]|(z & Hz & Ez & Ei)].
+    + right. exists x. split; [left; reflexivity|split; [exact Er|reflexivity]].
+    + left. exact Hb.
+    + right. exists z. split; [right; exact Hz|split; assumption].
+Qed.
+
+Lemma in_kids_id_inj : forall ks y z, NoDup (kid_ids ks) -> in_kids y ks -> in_kids z ks -> item_id y = item_id z -> y = z.
+Proof.
+  induction ks as [|x xs IH]; intros y z Hnd Hy Hz E; [destruct Hy|].
+  cbn [kid_ids in_kids] in *. apply NoDup_cons_iff in Hnd. destruct Hnd as [Hx Hnd].
+  destruct Hy as [ -> |Hy], Hz as [ -> |Hz].
+  - reflexivity.
+  - exfalso. apply Hx. rewrite E. apply in_kids_ids. exact Hz.
+  - exfalso. apply Hx. rewrite <- E. apply in_kids_ids. exact Hy.
+  - apply IH; assumption.
+Qed.
+
+Lemma redefiner_not_target ks : sib_ok [] ks = true -> NoDup (kid_ids ks) ->
+  forall y, in_kids y ks -> item_redef y <> None -> ~ In (item_id y) (redef_targets ks).
+Proof.
+  intros Hs Hnd y Hy Hr Hin. destruct (sib_ok_targets ks [] Hs _ Hin) as [[]|(z & Hz & Ez & Ei)].
+  assert (z = y) by (apply (in_kids_id_inj ks); assumption). subst z. contradiction.
+Qed.
+
+Lemma in_kids_app_r y a b : in_kids y b -> in_kids y (app_items a b).
+Proof. induction a as [|p ps IHp]; cbn [app_items in_kids]; intros H; [exact H|right; apply IHp; exact H]. Qed.
+
 (* L1: the side effect on the parent's ordered properties, flattened *)
 Lemma assemble_flat_gen tg : forall rem pre bases em,
   (forall u, In u em <-> (In u bases /\ In u tg)) ->
@@ -493,9 +545,10 @@ Lemma assemble_flat_gen tg : forall rem pre bases em,
   sib_ok bases rem = true ->
   (forall y u, in_kids y rem -> item_redef y = Some u -> In u tg) ->
   (forall u, In u tg -> exists y, in_kids y (app_items pre rem) /\ item_redef y = Some u) ->
+  (forall y, in_kids y (app_items pre rem) -> item_redef y <> None -> ~ In (item_id y) tg) ->
   assemble (kid_alts tg (app_items pre rem)) em (kid_alts tg rem) = assemble_d rem.
 Proof.
-  induction rem as [|x xs IH]; intros pre bases em Hem Hpre Hbases Hnd Hsib Htg Hsrc; [reflexivity|].
+  induction rem as [|x xs IH]; intros pre bases em Hem Hpre Hbases Hnd Hsib Htg Hsrc Hnr; [reflexivity|].
   rewrite kid_alts_cons, assemble_cons. cbn [assemble_d]. cbn [sib_ok] in Hsib.
   (* moving x from rem to pre *)
   assert (Happ : app_items pre (ICons x xs) = app_items (app_items pre (ICons x INil)) xs).
@@ -535,8 +588,13 @@ Proof.
       + congruence.
       + assert (In (item_id x) (redef_targets xs)) by (eapply redef_targets_spec; eassumption).
         apply existsb_eqb_In in H. congruence. }
-  unfold union_of. destruct (item_redef x) as [u|] eqn:Er.
+  assert (Hnrb : forall y, in_kids y (app_items pre (ICons x xs)) -> item_redef y <> None ->
+                          existsb (N.eqb (item_id y)) tg = false).
+  { intros y Hy Hr. destruct (existsb (N.eqb (item_id y)) tg) eqn:E; [|reflexivity].
+    apply existsb_eqb_In in E. exfalso. exact (Hnr y Hy Hr E). }
+  rewrite union_of_unf. destruct (item_redef x) as [u|] eqn:Er.
   - (* a redefiner: its union was emitted when the base was met *)
+    rewrite (Hnrb x) by (try (apply in_kids_app_r; left; reflexivity); rewrite Er; discriminate).
     apply andb_true_iff in Hsib. destruct Hsib as [Hu Hxs]. apply existsb_eqb_In in Hu.
     assert (Hutg : In u tg) by (apply (Htg x u); [left; reflexivity|exact Er]).
     replace (existsb (N.eqb u) em) with true
@@ -545,6 +603,7 @@ Proof.
     + intros y Hy. destruct (Hinpre y Hy) as [H| -> ]; [apply Hpre; exact H|rewrite Er; exact Hu].
     + intros v Hv. rewrite Hidspre. apply in_or_app. left. apply Hbases. exact Hv.
     + rewrite <- Happ. exact Hnd.
+    + rewrite <- Happ. exact Hnr.
   - rewrite <- (Hlocal eq_refl). destruct (existsb (N.eqb (item_id x)) tg) eqn:Et.
     + (* the redefined item: first member of its union *)
       apply existsb_eqb_In in Et.
@@ -558,14 +617,17 @@ Proof.
         - rewrite kid_alts_cons. cbn [alts_of]. unfold union_of. rewrite Er.
           replace (existsb (N.eqb (item_id x)) tg) with true by (symmetry; apply existsb_eqb_In; exact Et).
           rewrite N.eqb_refl. f_equal. apply alts_of_redefiners.
-          intros y Hy _ Heq. rewrite kid_ids_app in Hnd. apply NoDup_app_r in Hnd.
-          cbn [kid_ids] in Hnd. apply NoDup_cons_iff in Hnd. destruct Hnd as [Hnd _].
-          apply Hnd. rewrite <- Heq. apply in_kids_ids. exact Hy.
-        - intros y Hy. specialize (Hpre y Hy). unfold union_of.
+          + intros y Hy _ Heq. rewrite kid_ids_app in Hnd. apply NoDup_app_r in Hnd.
+            cbn [kid_ids] in Hnd. apply NoDup_cons_iff in Hnd. destruct Hnd as [Hnd _].
+            apply Hnd. rewrite <- Heq. apply in_kids_ids. exact Hy.
+          + intros y Hy Hr. apply Hnrb; [apply in_kids_app_r; right; exact Hy|exact Hr].
+        - intros y Hy. specialize (Hpre y Hy). rewrite union_of_unf.
+          assert (Hyx : Some (item_id y) <> Some (item_id x)).
+          { intros E. injection E as E. apply Hxnotpre. rewrite <- E. apply in_kids_ids. exact Hy. }
           destruct (item_redef y) as [u'|].
-          + intros E. injection E as ->. apply Hbases in Hpre. contradiction.
-          + destruct (existsb (N.eqb (item_id y)) tg); [|discriminate].
-            intros E. injection E as E. apply Hxnotpre. rewrite <- E. apply in_kids_ids. exact Hy. }
+          + destruct (existsb (N.eqb (item_id y)) tg); [exact Hyx|].
+            intros E. injection E as ->. apply Hbases in Hpre. contradiction.
+          + destruct (existsb (N.eqb (item_id y)) tg); [exact Hyx|discriminate]. }
       rewrite Halts. f_equal. f_equal. rewrite Happ.
       apply (IH _ (item_id x :: bases) (item_id x :: em)); try assumption.
       * intros v. cbn [In]. rewrite Hem. split.
@@ -576,6 +638,7 @@ Proof.
         -- rewrite Er. left. reflexivity.
       * intros v [ <- |Hv]; rewrite Hidspre; apply in_or_app; [right; left; reflexivity|left; apply Hbases; exact Hv].
       * rewrite <- Happ. exact Hnd.
+      * rewrite <- Happ. exact Hnr.
     + (* an ordinary child *)
       f_equal. rewrite Happ. apply (IH _ (item_id x :: bases) em); try assumption.
       * intros v. rewrite Hem. cbn [In]. split.
@@ -587,6 +650,7 @@ Proof.
         -- rewrite Er. left. reflexivity.
       * intros v [ <- |Hv]; rewrite Hidspre; apply in_or_app; [right; left; reflexivity|left; apply Hbases; exact Hv].
       * rewrite <- Happ. exact Hnd.
+      * rewrite <- Happ. exact Hnr.
 Qed.
 
 Lemma assemble_flat e ks :
@@ -606,6 +670,7 @@ Proof.
     + destruct Hu' as [ <- |Hu']; [exists z; split; [left; reflexivity|exact Ez]|].
       destruct (IHz Hu') as (y & Hy & Ey). exists y. split; [right; exact Hy|exact Ey].
     + destruct (IHz Hu') as (y & Hy & Ey). exists y. split; [right; exact Hy|exact Ey].
+  - cbn [app_items]. apply redefiner_not_target; [apply (unions_sib_ok e [] ks Hu)|exact Hnd].
 Qed.
 
 (* ------------------------------------------------------------------ keys registered by a built schema *)
